@@ -207,6 +207,7 @@ func cmdCheck(args []string) int {
 	}
 	results := v.solveAll(obls, dir, *timeout, 6)
 
+	reg := loadRegistry(*verifDir)
 	known := loadKnown(filepath.Join(*verifDir, "known_findings.txt"))
 	knownObl := map[string]knownFinding{}
 	for _, k := range known {
@@ -243,9 +244,22 @@ func cmdCheck(args []string) int {
 			os.MkdirAll(replayDir, 0o755)
 			rp := filepath.Join(replayDir, mangle(r.Obl.Name)+".json")
 			writeReplay(rp, *prop, r)
-			suffix := ""
-			if r.Status != "failed" || r.Model == "" || r.Obl.ExpSat {
-				suffix = " no-failing-input-found"
+			suffix := " no-failing-input-found"
+			base := r.Obl.Name
+			if i := strings.LastIndex(base, "#"); i > 0 && strings.Count(base, "#") >= 2 && isDigits(base[i+1:]) {
+				base = base[:i]
+			}
+			for _, rr := range reg.Replays {
+				if rr.Obligation == r.Obl.Name || rr.Obligation == base {
+					ok, out := runGoReplay(*verifDir, rr.Pkg, rr.File, rr.Run)
+					logp := strings.TrimSuffix(rp, ".json") + ".replay.log"
+					os.WriteFile(logp, []byte(out), 0o644)
+					if ok {
+						suffix = " replayed-on-real-code=" + rr.File
+						rp = logp
+					}
+					break
+				}
 			}
 			line := fmt.Sprintf("VIOLATION property=%s replay=%s obligation=%s status=%s%s", *prop, rp, r.Obl.Name, r.Status, suffix)
 			violations = append(violations, line)
@@ -274,6 +288,34 @@ func cmdCheck(args []string) int {
 				os.WriteFile(rp, b, 0o644)
 				violations = append(violations, fmt.Sprintf("VIOLATION property=%s replay=%s obligation=%s status=missing no-failing-input-found", *prop, rp, n))
 			}
+		}
+	}
+	var boundedInfo []map[string]interface{}
+	for _, tk := range trustedUsed {
+		found := false
+		for _, b := range reg.Bounded {
+			if b.Contract != tk {
+				continue
+			}
+			found = true
+			ok, out := runGoReplay(*verifDir, b.Pkg, b.File, b.Run)
+			info := map[string]interface{}{"assumed_contract": tk, "bound": b.Bound, "test": b.File, "passed": ok, "label": "bounded (not counted as proved)"}
+			for _, l := range strings.Split(out, "\n") {
+				if strings.Contains(l, "BOUNDED-CHECK") {
+					info["result"] = strings.TrimSpace(l)
+				}
+			}
+			boundedInfo = append(boundedInfo, info)
+			if !ok {
+				exit = 1
+				os.MkdirAll(replayDir, 0o755)
+				rp := filepath.Join(replayDir, "bounded_"+mangle(tk)+".log")
+				os.WriteFile(rp, []byte(out), 0o644)
+				violations = append(violations, fmt.Sprintf("VIOLATION property=%s replay=%s assumed-contract=%s refuted-by-bounded-execution-of-the-real-function", *prop, rp, tk))
+			}
+		}
+		if !found {
+			boundedInfo = append(boundedInfo, map[string]interface{}{"assumed_contract": tk, "label": "trusted, no bounded stand-in"})
 		}
 	}
 	for _, l := range violations {
@@ -308,6 +350,7 @@ func cmdCheck(args []string) int {
 				"samples":                  samples,
 				"engine_errors":            funcErrs,
 				"trusted_contracts_used":   trustedUsed,
+				"bounded":                  boundedInfo,
 			},
 			"assumptions": standingAssumptions,
 			"wall_s":      round2(wall),
@@ -394,4 +437,16 @@ func reportLoadFailure(prop, verifDir, evidence, tier string, err error, t0 time
 	os.WriteFile(rp, b, 0o644)
 	fmt.Printf("VIOLATION property=%s replay=%s reason=%q no-failing-input-found\n", prop, rp, "repository does not load/type-check")
 	return 1
+}
+
+func isDigits(s string) bool {
+	if s == "" {
+		return false
+	}
+	for _, c := range s {
+		if c < '0' || c > '9' {
+			return false
+		}
+	}
+	return true
 }
